@@ -17,3 +17,4 @@ INVARIANT NoDeadlock
 INVARIANT Inv
 INVARIANT OnceInv
 INVARIANT EvalInv
+INVARIANT CtxInv
